@@ -46,6 +46,11 @@ package proxy
 //                               (earliest possible start of that attempt + timeout), or with no pool timeout
 //   C10.timeout-hang            a backend that never answers kept the attempt blocked for 3 h although
 //                               the pool has a timeout
+//   C10.timeout-exceeded        pool has a timeout T, yet an attempt was released later than T (+ what scheduler
+//                               stalls consumed + 1 ms) after it reached the transport, whatever (later) deadline
+//                               the client's own request context carries
+//   C10.call-exceeds-time-limit pool has a timeout T, yet ServerPool.handle took longer than
+//                               attempts*T + the documented maximum back-offs (+ stalls + 1 s)
 //   C10.timeout-not-408         the last attempt ran into the pool timeout, but the client does not get
 //                               result "timeout" with status 408
 //   C10.spurious-cancel         the context handed to the transport is cancelled although the client did not
@@ -76,8 +81,13 @@ package proxy
 //   * a cancellation that falls on or after the earliest instant at which the back-off may have
 //     ended does not forbid the next attempt; the first attempt may or may not be made when the
 //     client cancelled before it.
-//   * cancellation is a context cancel, never a client-side deadline; after a client cancel only
-//     result "clientError" is required, any status code is accepted (499 is not documented).
+//   * cancellation is a context cancel; after a client cancel only result "clientError" is
+//     required, any status code is accepted (499 is not documented). The context of the client's
+//     request may also carry a deadline of its own (shorter than, equal to, longer than the pool
+//     time-out, or none): its expiry counts as a cancellation at that instant for the retry rules;
+//     an attempt ended by a deadline while the client's own has expired may be reported as timeout
+//     or clientError (statement silent), and is no "premature" pool time-out. A later client
+//     deadline changes nothing about the pool time-out (that is the time-limit clause).
 //   * whether the pool timeout covers one attempt or the whole request: the weaker per-attempt
 //     bound is used for "premature"; "not applied" only requires a deadline no later than
 //     transport entry + timeout.
@@ -179,12 +189,15 @@ type c10Attempt struct {
 }
 
 type c10Op struct {
-	GapUs    int64        `json:"gap_us"`
-	Method   string       `json:"method"` // "": POST
-	Stream   bool         `json:"stream"`
-	BodyLen  int          `json:"body_len"`
-	CancelUs int64        `json:"cancel_us"` // < 0: the client never cancels
-	Attempts []c10Attempt `json:"attempts"`
+	GapUs    int64  `json:"gap_us"`
+	Method   string `json:"method"` // "": POST
+	Stream   bool   `json:"stream"`
+	BodyLen  int    `json:"body_len"`
+	CancelUs int64  `json:"cancel_us"` // < 0: the client never cancels
+	// > 0: the context of the client's request carries a deadline this long after the call
+	// (a server- or client-side request deadline), independent of the pool time-out
+	DeadlineUs int64        `json:"deadline_us"`
+	Attempts   []c10Attempt `json:"attempts"`
 }
 
 type c10Client struct {
@@ -306,6 +319,7 @@ func c10Gen(rng *sim.Rand, tier string) interface{} {
 		cancelPct = 0
 	}
 	streamPct := rng.Pick(0, 0, 15, 40)
+	dlPct := rng.Pick(0, 0, 25, 60) // requests whose context has a deadline of its own
 	dense := rng.Bool(0.5)
 
 	sc.Clients = make([]c10Client, nClients)
@@ -329,6 +343,7 @@ func c10Gen(rng *sim.Rand, tier string) interface{} {
 			op.BodyLen = 0 // behind a server in stream mode even a body-less request is a stream request
 		}
 		willCancel := rng.Intn(100) < cancelPct
+		hasDL := rng.Intn(100) < dlPct
 		pf := scenPf
 		if rng.Bool(0.3) {
 			pf = rng.Pick(0, 50, 100)
@@ -355,7 +370,7 @@ func c10Gen(rng *sim.Rand, tier string) interface{} {
 					switch y := rng.Intn(10); {
 					case y < 4:
 						at.Kind = "bodyfail"
-					case y < 6 && (T > 0 || willCancel):
+					case y < 6 && (T > 0 || willCancel || hasDL):
 						at.Kind = "bodyhang"
 					case y < 8:
 						at.Kind = "toolarge"
@@ -378,13 +393,13 @@ func c10Gen(rng *sim.Rand, tier string) interface{} {
 					// the load balancer has no server to offer (service discovery lists none at
 					// this moment): the attempt fails before any backend call
 					at.Kind = "noserver"
-				case x < 55 || (T == 0 && !willCancel):
+				case x < 55 || (T == 0 && !willCancel && !hasDL):
 					at.Kind = "neterr"
 					at.LatUs = fastLat()
 				case x < 80 && T > 0:
 					at.Status = 200
 					at.LatUs = int64(rng.Pick(int(T), int(T+1), int(T+1000), int(3*T)))
-				case T > 0 || willCancel:
+				case T > 0 || willCancel || hasDL:
 					at.Kind = "hang"
 				default:
 					at.Kind = "neterr"
@@ -408,6 +423,19 @@ func c10Gen(rng *sim.Rand, tier string) interface{} {
 			if op.CancelUs < 0 {
 				op.CancelUs = 0
 			}
+		}
+		switch {
+		case sc.Net && hasDL:
+			// net variant: only a deadline far beyond anything the pool may take
+			op.DeadlineUs = 9000 * 1000000
+		case hasDL && T > 0:
+			// earlier than, equal to and later than the pool time-out
+			op.DeadlineUs = int64(rng.Pick(int(T/2), int(T-1), int(T), int(T+1), int(2*T), int(T+effWaitUs), int(3*T+2*effWaitUs), 5000000, 60000000, 3600000000))
+		case hasDL:
+			op.DeadlineUs = int64(rng.Pick(1000, 100000, int(firstLat), int(firstLat+effWaitUs), 1000000, 10000000, 3600000000))
+		}
+		if hasDL && op.DeadlineUs <= 0 {
+			op.DeadlineUs = 1
 		}
 		c := rng.Intn(nClients)
 		sc.Clients[c].Ops = append(sc.Clients[c].Ops, op)
@@ -672,6 +700,9 @@ type c10Req struct {
 	done        bool
 	retStamp    int
 	retAt       time.Duration
+	deadlineAt  time.Duration // > 0: instant at which the client's own deadline expires
+	stalled0    time.Duration // scheduler stall time consumed when the call was made
+	stalledRet  time.Duration // ... when it returned
 	result      string
 	inAttempt   bool
 }
@@ -741,6 +772,27 @@ func c10Exec(r *sim.Run, sci interface{}) {
 	streamResp := sc.MaxBody < 0
 	var sawNoServer, sawRetriedBody, sawStreamRespOK, sawStreamRespCut, sawStreamRespRetried bool
 
+	// clientEnd: the client's request has ended, by its cancel or by its own deadline, and when
+	clientEnd := func(st *c10Req) (bool, time.Duration) {
+		ended, at := st.cancelled, st.cancelAt
+		if st.deadlineAt > 0 && r.Now() >= st.deadlineAt && (!ended || st.deadlineAt < at) {
+			ended, at = true, st.deadlineAt
+		}
+		return ended, at
+	}
+	// ctxKind names how a context ended: by the client's cancel, by a deadline while the client's
+	// own one had not expired (the pool's), or by a deadline when the client's had (either)
+	ctxKind := func(st *c10Req, err error) string {
+		switch {
+		case err != stdcontext.DeadlineExceeded:
+			return "canceled"
+		case st.deadlineAt > 0 && r.Now() >= st.deadlineAt:
+			return "clientdl"
+		}
+		return "deadline"
+	}
+	var sawClientDL, sawClientDLLater, sawClientDLExpired, sawPoolTimeoutDespiteLaterClientDL bool
+
 	// begin registers the start of an attempt (at the load balancer for an attempt that finds no
 	// server, at the transport otherwise) and checks the rules on when an attempt may start;
 	// it returns the earliest instant at which the pool can have started this attempt
@@ -765,9 +817,10 @@ func c10Exec(r *sim.Run, sci interface{}) {
 			case att.entry-prev.end < mw:
 				r.Violate("C10.backoff-too-short", "request %s: attempt %d ended at %v, attempt %d reached the transport at %v: waited %v, documented minimum %v\n%s\nhistory: %s",
 					st.name, idx, prev.end, idx+1, att.entry, att.entry-prev.end, mw, describe(), history())
-			case st.cancelled && st.cancelAt < lower:
-				r.Violate("C10.attempt-after-cancel", "request %s: client cancelled at %v; attempt %d had ended at %v and the back-off cannot end before %v, yet attempt %d was started (reached the transport at %v)\n%s\nhistory: %s",
-					st.name, st.cancelAt, idx, prev.end, lower, idx+1, att.entry, describe(), history())
+			case func() bool { e, at := clientEnd(st); return e && at < lower }():
+				_, endAt := clientEnd(st)
+				r.Violate("C10.attempt-after-cancel", "request %s: client cancelled (or its deadline expired) at %v (cancel %v, own deadline %v); attempt %d had ended at %v and the back-off cannot end before %v, yet attempt %d was started (reached the transport at %v)\n%s\nhistory: %s",
+					st.name, endAt, st.cancelled, st.deadlineAt, idx, prev.end, lower, idx+1, att.entry, describe(), history())
 			}
 			if idx >= 2 && ref.exponential {
 				sawExp3 = true
@@ -815,13 +868,14 @@ func c10Exec(r *sim.Run, sci interface{}) {
 		if idx < len(st.op.Attempts) {
 			script = st.op.Attempts[idx]
 		}
-		if script.Kind == "hang" && ref.timeout == 0 && st.op.CancelUs < 0 {
+		if script.Kind == "hang" && ref.timeout == 0 && st.op.CancelUs < 0 && st.deadlineAt == 0 {
 			script = c10Attempt{Kind: "neterr", LatUs: 1000000}
 		}
 		if script.LatUs < 0 {
 			script.LatUs = 0
 		}
 		hung, answered := false, false
+		stalledAtEntry := r.StalledFor()
 		if !r.Violated() && !r.Aborted() {
 			switch {
 			case script.Kind == "hang":
@@ -859,7 +913,19 @@ func c10Exec(r *sim.Run, sci interface{}) {
 				r.Violate("C10.other", "harness: hanging attempt without timeout and without cancellation (request %s)", st.name)
 			}
 		}
-		if wokeErr == stdcontext.DeadlineExceeded && !r.Violated() {
+		// time limit: whatever deadline the client's own context has, an attempt that the backend
+		// does not answer ends within the pool time-out of reaching the transport (slack: what
+		// scheduler stalls consumed meanwhile + 1 ms)
+		if ref.timeout > 0 && !r.Violated() && !r.Aborted() {
+			if slack := r.StalledFor() - stalledAtEntry + time.Millisecond; woke-att.entry > ref.timeout+slack {
+				r.Violate("C10.timeout-exceeded", "request %s attempt %d: reached the transport at %v, pool timeout %v, but the attempt was only released at %v (%v later; context error %v; the client's own deadline is at %v)\n%s\nhistory: %s",
+					st.name, idx+1, att.entry, ref.timeout, woke, woke-att.entry, wokeErr, st.deadlineAt, describe(), history())
+			}
+			if (script.Kind == "hang" || time.Duration(script.LatUs)*time.Microsecond > ref.timeout) && wokeErr == stdcontext.DeadlineExceeded && st.deadlineAt > att.entry+ref.timeout {
+				sawPoolTimeoutDespiteLaterClientDL = true
+			}
+		}
+		if wokeErr == stdcontext.DeadlineExceeded && !r.Violated() && !(st.deadlineAt > 0 && woke >= st.deadlineAt) {
 			if ref.timeout == 0 || woke < lower+ref.timeout {
 				r.Violate("C10.timeout-premature", "request %s attempt %d: context reported DeadlineExceeded at %v; the attempt cannot have started before %v and the pool timeout is %v\n%s\nhistory: %s",
 					st.name, idx+1, woke, lower, ref.timeout, describe(), history())
@@ -873,10 +939,12 @@ func c10Exec(r *sim.Run, sci interface{}) {
 		att.tag = fmt.Sprintf("%s-attempt-%d", st.name, idx+1)
 		if err := ctx.Err(); err != nil {
 			att.kind, att.failed = "err", true
-			att.ctxErr = "canceled"
-			if err == stdcontext.DeadlineExceeded {
-				att.ctxErr = "deadline"
+			att.ctxErr = ctxKind(st, err)
+			switch att.ctxErr {
+			case "deadline":
 				sawTimeout = true
+			case "clientdl":
+				sawClientDLExpired = true
 			}
 			note("%s.a%d ctx-%s", st.name, idx, att.ctxErr)
 			return nil, fmt.Errorf("c10 transport: %w", err)
@@ -888,7 +956,7 @@ func c10Exec(r *sim.Run, sci interface{}) {
 			note("%s.a%d neterr", st.name, idx)
 			return nil, c10ErrNet
 		}
-		if script.Kind == "bodyhang" && ref.timeout == 0 && st.op.CancelUs < 0 {
+		if script.Kind == "bodyhang" && ref.timeout == 0 && st.op.CancelUs < 0 && st.deadlineAt == 0 {
 			script.Kind = "bodyfail"
 		}
 		if (script.Kind == "toolarge" || script.Kind == "toolarge-unknown") && sc.MaxBody <= 0 {
@@ -938,7 +1006,7 @@ func c10Exec(r *sim.Run, sci interface{}) {
 					k = len(full) - 1
 				}
 				att.sent = full[:k]
-				resp.Body = &c10FailBody{r: r, ctx: ctx, data: full[:k], hang: script.Kind == "bodyhang", att: att,
+				resp.Body = &c10FailBody{r: r, ctx: ctx, data: full[:k], hang: script.Kind == "bodyhang", att: att, kind: func(e error) string { return ctxKind(st, e) },
 					done: func(how string) { note("%s.a%d body read %s after %d bytes", st.name, idx, how, k) }}
 			}
 			sawBodyErr = true
@@ -1110,14 +1178,31 @@ func c10Exec(r *sim.Run, sci interface{}) {
 
 		// ---- retry / time-limit rules
 		if n == 0 {
-			if st.cancelled && st.cancelStamp < st.retStamp {
+			if (st.cancelled && st.cancelStamp < st.retStamp) || (st.deadlineAt > 0 && st.retAt >= st.deadlineAt) {
 				return // cancelled before the first attempt: statement silent
 			}
 			r.Violate("C10.other", "request %s returned result %q status %d without any transport call\n%s", st.name, result, status, describe())
 			return
 		}
 		last := st.atts[n-1]
-		cancelledBeforeReturn := st.cancelled && st.cancelStamp < st.retStamp
+		cancelledBeforeReturn := (st.cancelled && st.cancelStamp < st.retStamp) || (st.deadlineAt > 0 && st.retAt >= st.deadlineAt)
+		endAt := st.cancelAt
+		if st.deadlineAt > 0 && st.retAt >= st.deadlineAt && (!st.cancelled || st.deadlineAt < endAt) {
+			endAt = st.deadlineAt
+		}
+		// time limit for the whole call: every attempt is bounded by the pool time-out, every wait
+		// by the documented maximum (slack: scheduler stalls + 1 s for lock hand-overs)
+		if ref.timeout > 0 && !r.Aborted() {
+			bound := st.stalledRet - st.stalled0 + time.Second
+			for i := 0; i < n; i++ {
+				bound += ref.timeout + ref.maxWait(i)
+			}
+			if st.retAt-st.callAt > bound {
+				r.Violate("C10.call-exceeds-time-limit", "request %s: called at %v, returned at %v (%v) with %d attempt(s); pool timeout %v and the documented back-offs allow at most %v (client's own deadline at %v)\n%s\nhistory: %s",
+					st.name, st.callAt, st.retAt, st.retAt-st.callAt, n, ref.timeout, bound, st.deadlineAt, describe(), history())
+				return
+			}
+		}
 		maxA := ref.maxAttempts
 		if st.op.Stream || !rt.On {
 			maxA = 1
@@ -1127,9 +1212,9 @@ func c10Exec(r *sim.Run, sci interface{}) {
 				r.Violate("C10.too-few-attempts", "request %s: %d attempt(s), all failed, client did not cancel, maxAttempts=%d\n%s\nhistory: %s", st.name, n, maxA, describe(), history())
 				return
 			}
-			if st.cancelAt > last.end+ref.maxWait(n-1) {
-				r.Violate("C10.too-few-attempts", "request %s: %d attempt(s), all failed, maxAttempts=%d; the client cancelled at %v, later than the longest back-off after attempt %d (ended %v, wait <= %v)\n%s\nhistory: %s",
-					st.name, n, maxA, st.cancelAt, n, last.end, ref.maxWait(n-1), describe(), history())
+			if endAt > last.end+ref.maxWait(n-1) {
+				r.Violate("C10.too-few-attempts", "request %s: %d attempt(s), all failed, maxAttempts=%d; the client cancelled (or its deadline expired) at %v, later than the longest back-off after attempt %d (ended %v, wait <= %v)\n%s\nhistory: %s",
+					st.name, n, maxA, endAt, n, last.end, ref.maxWait(n-1), describe(), history())
 				return
 			}
 		}
@@ -1187,7 +1272,7 @@ func c10Exec(r *sim.Run, sci interface{}) {
 			// client cancel), never the backend's status with a partial body
 			sawBodyErrLast = true
 			leak := body != "" && (strings.Contains(body, st.name+"-attempt-") || strings.HasPrefix(last.tag+"-"+strings.Repeat("x", 80), body))
-			okStatus := status >= 500 || (last.ctxErr == "deadline" && status == http.StatusRequestTimeout) || (last.ctxErr == "canceled" && status >= 400)
+			okStatus := status >= 500 || (last.ctxErr == "deadline" && status == http.StatusRequestTimeout) || ((last.ctxErr == "canceled" || last.ctxErr == "clientdl") && status >= 400)
 			switch {
 			case leak || (hasResp && status == last.status && status < 500):
 				r.Violate("C10.failed-body-published", "request %s: the body of the last attempt (%d, status %d) failed after %d bytes, yet the client is given status %d with body %q (result %q): the response of a failed attempt was published\n%s\nhistory: %s",
@@ -1203,6 +1288,12 @@ func c10Exec(r *sim.Run, sci interface{}) {
 		case last.ctxErr == "deadline":
 			if result != "timeout" || !hasResp || status != http.StatusRequestTimeout {
 				r.Violate("C10.timeout-not-408", "request %s: last attempt (%d) ran into the pool timeout %v, client got result %q status %d (expected timeout / 408)\n%s\nhistory: %s", st.name, n, ref.timeout, result, status, describe(), history())
+			}
+		case last.ctxErr == "clientdl":
+			// the client's own deadline expired inside the attempt: a time-out or the client's
+			// going away, the statement does not say which
+			if (result != "timeout" && result != "clientError") || !hasResp {
+				r.Violate("C10.final-outcome", "request %s: last attempt (%d) was ended by the client's own deadline (%v), client got result %q status %d (expected timeout or clientError)\n%s\nhistory: %s", st.name, n, st.deadlineAt, result, status, describe(), history())
 			}
 		case last.ctxErr == "canceled":
 			if result != "clientError" || !hasResp {
@@ -1248,6 +1339,13 @@ func c10Exec(r *sim.Run, sci interface{}) {
 					op.BodyLen = 0
 				}
 				cctx, cancel := stdcontext.WithCancel(stdcontext.Background())
+				deadlineBase := r.Now()
+				if op.DeadlineUs > 0 {
+					var cancelDL stdcontext.CancelFunc
+					cctx, cancelDL = stdcontext.WithTimeout(cctx, time.Duration(op.DeadlineUs)*time.Microsecond)
+					cancelReq := cancel
+					cancel = func() { cancelDL(); cancelReq() }
+				}
 				var bodyRd io.Reader
 				if op.BodyLen > 0 {
 					bodyRd = strings.NewReader(strings.Repeat("b", op.BodyLen))
@@ -1295,6 +1393,14 @@ func c10Exec(r *sim.Run, sci interface{}) {
 					maxOpen = open
 				}
 				st.callAt = r.Now()
+				st.stalled0 = r.StalledFor()
+				if op.DeadlineUs > 0 {
+					st.deadlineAt = deadlineBase + time.Duration(op.DeadlineUs)*time.Microsecond
+					sawClientDL = true
+					if ref.timeout > 0 && time.Duration(op.DeadlineUs)*time.Microsecond > ref.timeout {
+						sawClientDLLater = true
+					}
+				}
 				st.callStamp = stamp()
 				note("%s call stream=%v cancel_us=%d", name, op.Stream, op.CancelUs)
 				if op.CancelUs >= 0 {
@@ -1331,7 +1437,7 @@ func c10Exec(r *sim.Run, sci interface{}) {
 					}()
 					result = sp.handle(ctx, false)
 				}()
-				st.retAt = r.Now()
+				st.retAt, st.stalledRet = r.Now(), r.StalledFor()
 				// a stream response is consumed as the HTTP server does it: copy the payload to the
 				// client right after the pipeline returned (no gate, no simulated time in between),
 				// then finish the context (which closes the response)
@@ -1350,7 +1456,7 @@ func c10Exec(r *sim.Run, sci interface{}) {
 						}
 					}
 				}
-				cancelledAtRead, readAt := st.cancelled, r.Now()
+				cancelledAtRead, readAt := st.cancelled || (st.deadlineAt > 0 && r.Now() >= st.deadlineAt), r.Now()
 				if streamResp && pnc == nil {
 					func() {
 						defer func() {
@@ -1402,6 +1508,10 @@ func c10Exec(r *sim.Run, sci interface{}) {
 	probe(sawCancelBackoff, "c10.cancel.during_backoff")
 	probe(sawCancelAttempt, "c10.cancel.during_attempt")
 	probe(sawExp3, "c10.retry.exponential_third_attempt")
+	probe(sawClientDL, "c10.clientdeadline.request_with_own_deadline")
+	probe(sawClientDLLater, "c10.clientdeadline.later_than_pool_timeout")
+	probe(sawClientDLExpired, "c10.clientdeadline.expired_inside_attempt")
+	probe(sawPoolTimeoutDespiteLaterClientDL, "c10.clientdeadline.pool_timeout_fired_before_later_client_deadline")
 	probe(sawNoServer, "c10.attempt.no_server_available")
 	probe(sawRetriedBody, "c10.retry.request_body_sent_again")
 	probe(streamResp, "c10.streamresp.runs")
@@ -1435,6 +1545,7 @@ type c10FailBody struct {
 	data   string
 	pos    int
 	hang   bool
+	kind   func(error) string
 	att    *c10Att
 	err    error
 	done   func(how string)
@@ -1466,10 +1577,8 @@ func (b *c10FailBody) Read(p []byte) (int, error) {
 		how = "stalled-3h"
 		if e := b.ctx.Err(); e != nil {
 			b.err = e
-			how, b.att.ctxErr = "ctx-canceled", "canceled"
-			if e == stdcontext.DeadlineExceeded {
-				how, b.att.ctxErr = "ctx-deadline", "deadline"
-			}
+			b.att.ctxErr = b.kind(e)
+			how = "ctx-" + b.att.ctxErr
 		}
 	}
 	b.att.end = b.r.Now()
@@ -1577,7 +1686,7 @@ func TestVerifC10(t *testing.T) {
 		Exec:     c10Exec,
 		MaxSteps: 30000,
 		Rule: "scenario = drawn retry policy (maxAttempts omitted/1-5, waitDuration omitted/1ms-2s, random/exponential, randomizationFactor 0-1) or none, pool timeout none/5ms-1s, failureCodes, serverMaxBodySize omitted/64/-1 (stream response) on the pool or on the Proxy, optional COUNT_BASED breaker sized 1-8 (one record flips it) or TIME_BASED breaker over 1-30 s against request gaps of 0-40 s, " +
-			"1-3 client tasks with 1-14 requests, each with a method, a per-attempt backend script (status, failure code, network error, no server available, answer slower than the timeout, never answers, body cut/stalled/over the limit), buffered or stream body and an optional client cancellation at a drawn instant; " +
+			"1-3 client tasks with 1-14 requests, each with a method, a per-attempt backend script (status, failure code, network error, no server available, answer slower than the timeout, never answers, body cut/stalled/over the limit), buffered or stream body, an optional client cancellation at a drawn instant and an optional deadline of the client's own context (T/2 ... 1h); " +
 			"non-trivial = a retry succeeded after a failed attempt, all attempts failed, the pool timeout fired, a request was short-circuited, or a cancellation landed inside an attempt or a back-off; " +
 			"distinct = distinct (policy shape, per-request attempt outcomes, cancel position, result) signatures",
 		Real: []string{"pkg/filters/proxy ServerPool (NewServerPool, InjectResiliencePolicy, handle, doHandle, prepareRequest, buildResponse, buildFailureResponse, collectMetrics)",
@@ -1588,7 +1697,8 @@ func TestVerifC10(t *testing.T) {
 			"back-off is bounded from below only: wait after the i-th failed attempt >= waitDuration*1.5^i(exponential)*(1-randomizationFactor) - 1us; an extra wait after the final failed attempt is accepted",
 			"a cancellation at or after the earliest possible end of a back-off does not forbid the next attempt; a cancel before the first attempt may or may not suppress it; after a client cancel only result clientError is required (status free)",
 			"pool timeout is checked per attempt: deadline <= transport entry + timeout, DeadlineExceeded not before earliest attempt start + timeout; answer and time-out at the same instant count as time-out",
-			"backOffPolicy only omitted/random/exponential, maxAttempts >= 1 or omitted (3), waitDuration omitted (500ms) or 1ms..2s, client cancellation is a context cancel, never a client deadline",
+			"backOffPolicy only omitted/random/exponential, maxAttempts >= 1 or omitted (3), waitDuration omitted (500ms) or 1ms..2s; client cancellation is a context cancel and/or a deadline of the client's own request context (its expiry = cancellation at that instant; result timeout or clientError accepted then)",
+			"time limit: with pool timeout T an unanswered attempt is released within T + scheduler stalls + 1ms of reaching the transport and the call returns within attempts*T + maximum back-offs + stalls + 1s, whatever later deadline the client's context has",
 			"breaker COUNT_BASED or TIME_BASED with 24h open wait and 24h slow-call threshold, optional fields omitted (documented defaults); exact prediction with one client task (TIME_BASED: an outcome N-1..N+1 s old may or may not count), bounds with several",
 			"stream response: the complete backend body must be readable right after handle returned unless the backend cut it, the client cancelled, or the pool time-out has elapsed since the last attempt's earliest start; a failing backend body is no attempt failure in stream mode",
 			"an attempt without available server is a failed attempt (counts, back-off follows, as last attempt: failure result + 5xx); every attempt must carry the client's method and body bytes",
